@@ -757,6 +757,7 @@ func TestRun(t *testing.T) {
 			tc := time.Now()
 			equalToken(rec, kind, bw, vr.Scale(400, 10000), rnd)
 			rec.Count(fmt.Sprintf("phase_ms_equal_token_%s_%v", kind, bw), time.Since(tc).Milliseconds())
+			equalTokenCrowd(rec, kind, bw, vr.Scale(50, 1500), 32)
 		}
 		tc := time.Now()
 		collision(rec, kind, vr.Scale(20, 500), rnd)
